@@ -375,6 +375,7 @@ func runC10(tier string) *vf.Run {
 			}
 		})
 		fmt.Fprintf(os.Stderr, "c10: %d sequences in %d worker processes\n", len(seqs), batches)
+		c10Concurrent(run)
 	}
 	if *fCase < 0 {
 		run.Floor("shape_pair_order", 36)
